@@ -275,6 +275,7 @@ func (s *session) tryToResume(sprint *sprint, waitingRun flows.Run, resume flows
 
 	s.status = flows.SessionStatusActive
 	s.currentResume = resume
+	s.batchStart = false // only applies to the sprint which started the session - and isn't restored when reading a session
 
 	logEvent := func(e flows.Event) {
 		waitingRun.LogEvent(step, e)
